@@ -2,15 +2,19 @@
 # maintenance helper (not a registered command): re-run every archived seeded change against the current checks.
 # For each seeded/<id>: a scratch worktree of /repo HEAD, the patch applied there (if it still applies), the property's
 # check run from an isolated copy of /verif (harness/try_mutant_iso.sh). Output: one line per seeded change.
-# usage: harness/reseed_all.sh [jobs]    (default 4 in parallel)
+# usage: [SEEDS="0 1 2"] harness/reseed_all.sh [jobs]    (default 4 in parallel)
 cd /verif
 jobs=${1:-4}
 one() {
   id="$1"; prop="${id%%-*}"; wt="/tmp/reseed_$id"
   git -C /repo worktree add --detach "$wt" -q 2>/dev/null
   if git -C "$wt" apply "/verif/seeded/$id/patch.diff" 2>/dev/null; then
-    r=$(harness/try_mutant_iso.sh "$wt" "$prop" 2>&1 | tail -1)
-    echo "$id $r"
+    hits=0; total=0
+    for seed in ${SEEDS:-0}; do
+      r=$(VERIF_SEED=$seed harness/try_mutant_iso.sh "$wt" "$prop" 2>&1 | tail -1)
+      total=$((total+1)); case "$r" in *VIOLATION*) hits=$((hits+1));; esac
+    done
+    echo "$id detected in $hits of $total seeds (${SEEDS:-0}); last: $r"
   else
     echo "$id stale: patch does not apply to the current HEAD (the code it changed was repaired or rewritten since)"
   fi
